@@ -1,7 +1,10 @@
 package main
 
 import (
+	"fmt"
 	"net"
+	"os"
+	"runtime"
 	"strings"
 	"sync"
 	"sync/atomic"
@@ -160,33 +163,57 @@ func (tc *testConn) waitDone(d time.Duration) bool {
 // been read by the client. It returns false if the connection ended or the
 // state never became idle within the safety bound (caller: inconclusive).
 func (tc *testConn) quiesce() bool {
-	for round := 0; round < 2; round++ {
-		ok := false
-		for i := 0; i < 20000; i++ {
-			s, alive := tc.vc.OnServe()
-			if !alive {
-				return false
-			}
-			if s.Idle() {
-				ok = true
-				break
-			}
-			if i < 50 {
-				time.Sleep(50 * time.Microsecond)
-			} else {
-				time.Sleep(time.Millisecond)
-			}
+	ok := tc.quiesce1()
+	if !ok && os.Getenv("VH2_DEBUG") != "" {
+		s, alive := tc.vc.OnServe()
+		e, err := tc.cli.Ended()
+		fmt.Fprintf(os.Stderr, "quiesce failed: alive=%v snap=%+v ended=%v err=%v werr=%v\n", alive, s, e, err, tc.cli.WriteErr())
+	}
+	return ok
+}
+
+func (tc *testConn) waitIdle() bool {
+	for i := 0; i < 30000; i++ {
+		s, alive := tc.vc.OnServe()
+		if !alive {
+			return false
 		}
-		if !ok {
+		if s.Idle() {
+			return true
+		}
+		if i < 100 {
+			runtime.Gosched()
+		} else {
+			time.Sleep(200 * time.Microsecond)
+		}
+	}
+	return false
+}
+
+// quiesce1: idle -> PING -> idle -> PING; quiescent iff the client received
+// nothing but the two acknowledgements in between (the second round trip also
+// guarantees that the reader goroutine has delivered everything written
+// before it).
+func (tc *testConn) quiesce1() bool {
+	for attempt := 0; attempt < 200; attempt++ {
+		if !tc.waitIdle() {
+			return false
+		}
+		n0 := tc.cli.NumEvents()
+		if _, err := tc.cli.Sync(); err != nil {
+			return false
+		}
+		if !tc.waitIdle() {
 			return false
 		}
 		if _, err := tc.cli.Sync(); err != nil {
 			return false
 		}
+		if tc.cli.NumEvents() == n0+2 {
+			return true
+		}
 	}
-	// after the second round trip: confirm still idle
-	s, alive := tc.vc.OnServe()
-	return alive && s.Idle()
+	return false
 }
 
 // handlerCensus counts harness handler invocations that have not returned.
@@ -240,3 +267,14 @@ func (hc *handlerCensus) waitNone(d time.Duration) bool {
 }
 
 var _ = vkit.Hash64
+
+// envN lets a developer shrink a run (VH2_N); never set by bin/check.
+func envN(n int) int {
+	if v := os.Getenv("VH2_N"); v != "" {
+		var k int
+		if _, err := fmt.Sscan(v, &k); err == nil && k > 0 {
+			return k
+		}
+	}
+	return n
+}
